@@ -9,7 +9,7 @@ from moPepGen import SPLIT_DATABASE_KEY_SEPARATER, VARIANT_PEPTIDE_SOURCE_DELIMI
 from moPepGen.aa import AminoAcidSeqRecord
 from moPepGen.aa import VariantPeptideIdentifier as pi
 from moPepGen.aa.PeptidePoolSplitter import PeptidePoolSplitter
-from moPepGen.aa.VariantPeptideLabel import LabelSourceMapping, VariantSourceSet
+from moPepGen.aa.VariantPeptideLabel import LabelSourceMapping, VariantPeptideInfo, VariantSourceSet
 from moPepGen.aa.VariantPeptidePool import VariantPeptidePool
 from mpgverif.hlib import OK, SKIP, concretize, cond, patched, under_shim
 
@@ -378,3 +378,42 @@ def c18_split_q(s0: int, s1: int, s2: int, perm: int, max_groups: int, add_kind:
     post: _ >= 0
     """
     return _split_perm(s0, s1, s2, perm, max_groups, add_kind, False)
+
+
+FUSION_LABEL = 'FUSION-ENST1:10-ENST2:20|1-SNV-5-A-T|2-INDEL-7-AA-A|1'
+
+
+def _fusion_sources(sf, sa, sb, same_gene):
+    sf, sa, sb = concretize(sf, 0, 2), concretize(sa, 0, 2), concretize(sb, 0, 2)
+    VariantSourceSet.set_levels({SRC[i]: i for i in range(3)})
+    try:
+        g2 = 'G1' if same_gene else 'G2'
+        data = {'G1': {'FUSION-ENST1:10-ENST2:20': SRC[sf], 'SNV-5-A-T': SRC[sa]}}
+        data.setdefault(g2, {})['INDEL-7-AA-A'] = SRC[sb]
+        rec = AminoAcidSeqRecord(Seq('PEPTIDEK'), _id='x', name='x', description=FUSION_LABEL)
+        infos = VariantPeptideInfo.from_variant_peptide(
+            peptide=rec, tx2gene={'ENST1': 'G1', 'ENST2': g2}, coding_tx=set(),
+            label_map=LabelSourceMapping(data))
+        if len(infos) != 1:
+            return -1
+        if set(infos[0].sources) != {SRC[sf], SRC[sa], SRC[sb]}:
+            return -2              # a source of the entry (donor side, fusion, acceptor side) is lost
+        if str(infos[0]) != FUSION_LABEL:
+            return -3
+    finally:
+        VariantSourceSet.reset_levels()
+    return OK
+
+
+@cond('C18', bounds='one fusion header entry with a donor-side and an acceptor-side variant; donor and acceptor in the '
+      'same gene or in different genes; every source assignment over 3 sources',
+      encodes=['moPepGen.aa.VariantPeptideLabel.VariantPeptideInfo.from_variant_peptide (fusion branch)'],
+      codes={-1: 'number of entries changed', -2: 'source set of a fusion entry is not the union of the sources of its '
+             'donor-side variants, the fusion and its acceptor-side variants', -3: 'header entry text changed'},
+      timeout=300)
+def c18_fusion_sources(sf: int, sa: int, sb: int, same_gene: bool) -> int:
+    """
+    pre: 0 <= sf <= 2 and 0 <= sa <= 2 and 0 <= sb <= 2
+    post: _ >= 0
+    """
+    return _fusion_sources(sf, sa, sb, same_gene)
